@@ -133,6 +133,51 @@ func (e *Engine) installIntrinsics(pkgPath string) {
 	e.intercept[p+"vrfDeepCopy"] = func(e *Engine, fr *Frame, c *Ctx, a []Value, _ *ssa.CallCommon) (Value, bool) {
 		return e.deepCopy(c, a[0], map[int]int{}), true
 	}
+	e.intercept[p+"vrfSameMultiset"] = func(e *Engine, fr *Frame, c *Ctx, a []Value, _ *ssa.CallCommon) (Value, bool) {
+		sl := func(v Value) []ListEntry {
+			iv := v.(IfaceV)
+			if len(iv.Alts) != 1 || iv.Alts[0].Typ == nil {
+				unsup("vrfSameMultiset: argument must be a slice of one static type")
+			}
+			et := iv.Alts[0].Typ.Underlying().(*types.Slice).Elem()
+			return e.listView(c, iv.Alts[0].V.(SliceV), et)
+		}
+		la, lb := sl(a[0]), sl(a[1])
+		seen := map[[2]int]bool{}
+		// count(x in a) == count(x in b) for every present element x of a or b
+		all := append(append([]ListEntry(nil), la...), lb...)
+		na := len(la)
+		eq := make([][]*Term, len(all))
+		for i := range all {
+			eq[i] = make([]*Term, len(all))
+		}
+		for i := range all {
+			eq[i][i] = TTrue
+			for j := i + 1; j < len(all); j++ {
+				t := e.deepEqual(c, all[i].V, all[j].V, seen)
+				eq[i][j], eq[j][i] = t, t
+			}
+		}
+		count := func(i, from, to int) *Term {
+			var t *Term = BV(8, 0)
+			for j := from; j < to; j++ {
+				g := And(all[j].G, eq[i][j])
+				if g.IsFalse() {
+					continue
+				}
+				t = Add(t, Ite(g, BV(8, 1), BV(8, 0)))
+			}
+			return t
+		}
+		var conj []*Term
+		for i, x := range all {
+			if x.G.IsFalse() {
+				continue
+			}
+			conj = append(conj, Or(Not(x.G), Eq(count(i, 0, na), count(i, na, len(all)))))
+		}
+		return BoolV{And(conj...)}, true
+	}
 	e.intercept[p+"vrfDeepEqual"] = func(e *Engine, fr *Frame, c *Ctx, a []Value, _ *ssa.CallCommon) (Value, bool) {
 		return BoolV{e.deepEqual(c, a[0], a[1], map[[2]int]bool{})}, true
 	}
@@ -158,6 +203,7 @@ func (e *Engine) copyObj(c *Ctx, id int, memo map[int]int) int {
 			no.Log = append(no.Log, ne)
 		}
 	} else {
+		materialise(o)
 		no.Val = e.deepCopy(c, o.Val, memo)
 	}
 	return nid
@@ -246,10 +292,20 @@ func (e *Engine) deepEqual(c *Ctx, a, b Value, seen map[[2]int]bool) *Term {
 						disj = append(disj, g)
 						continue
 					}
-					seen[k] = true
+					if p.Obj == q.Obj && samePath(p.Path, q.Path) {
+						disj = append(disj, g) // the same location
+						continue
+					}
+					whole := len(p.Path) == 0 && len(q.Path) == 0
+					if whole {
+						seen[k] = true // in progress: only cycles are cut (coinductive equality)
+					}
 					va := getPath(c.S.Heap[p.Obj].Val, p.Path)
 					vb := getPath(c.S.Heap[q.Obj].Val, q.Path)
 					disj = append(disj, And(g, e.deepEqual(c, va, vb, seen)))
+					if whole {
+						delete(seen, k)
+					}
 				}
 			}
 		}
@@ -269,8 +325,8 @@ func (e *Engine) deepEqual(c *Ctx, a, b Value, seen map[[2]int]bool) *Term {
 				case p.Obj == -1 || q.Obj == -1:
 				default:
 					conj := []*Term{g, Eq(p.Len, q.Len)}
-					ea := c.S.Heap[p.Obj].Val.(ArrayV).E
-					eb := c.S.Heap[q.Obj].Val.(ArrayV).E
+					ea := e.arr(c, p.Obj).E
+					eb := e.arr(c, q.Obj).E
 					for i := 0; i < p.Cap && i < q.Cap; i++ {
 						conj = append(conj, Or(Ule(p.Len, BV(64, uint64(i))), e.deepEqual(c, ea[p.Off+i], eb[q.Off+i], seen)))
 					}
